@@ -82,8 +82,13 @@ def run(tier, mode):
         sec_txt = P.render_secgroup(r, g)
         t, ns, rg, ew = r.choice([1, 7, 154, 99]), r.choice('ns'), r.choice([1, 3, 97, 101]), r.choice('ew')
         trt = P.twprge_spellings(t, ns, rg, ew)[r.choice([0, 1, 2, 5])]
-        place = i % 3
-        if place == 0:      # Twp/Rge before
+        place = i % 4
+        mid = r.choice(['being a part of the original grant', 'situated in Williams County', 'as shown on the plat'])
+        want_desc = f'{lead} {trail}'
+        if place == 3:      # Twp/Rge inside, with text on both sides of it after the section
+            text = f'{lead} of {sec_txt}, {mid}, {trt}, {trail}'
+            want_desc = f'{lead} {mid} {trail}'
+        elif place == 0:      # Twp/Rge before
             text = f'{trt}, {lead} of {sec_txt}, {trail}'
         elif place == 1:    # Twp/Rge inside (right after the section)
             text = f'{lead} of {sec_txt}, {trt}, {trail}'
@@ -93,10 +98,9 @@ def run(tier, mode):
         o = H.call(pytrs.PLSSDesc, text, config='sec_within')
         n_or += 1
         dist['sec_within'] += 1
-        want_desc = f'{lead} {trail}'
         want = [(f'{t}{ns}{rg}{ew}{x:02d}', want_desc) for x in secs]
         if isinstance(o, H.Exn) or tr(o) != want or sum(f.startswith('sec_within<') for f in o.w_flags) != len(secs):
-            fail('sec_within', {'text': text, 'placement': ['before', 'inside', 'after'][place]}, o if isinstance(o, H.Exn) else [tr(o), o.w_flags], [want, 'sec_within<...> x%d' % len(secs)])
+            fail('sec_within', {'text': text, 'placement': ['before', 'inside', 'after', 'inside_with_text'][place]}, o if isinstance(o, H.Exn) else [tr(o), o.w_flags], [want, 'sec_within<...> x%d' % len(secs)])
         else:
             nontriv.add(('within', text))
     parts = {}
